@@ -132,7 +132,7 @@ def build(arg, tier):
     # -- F. thorough: seeded random configurations
     if not quick:
         rnd = random.Random(1414 + (1 if arg else 0))
-        for _ in range(330 if not arg else 300):
+        for _ in range(220 if not arg else 200):
             nsrc = rnd.randint(1, 4)
             srcs = []
             for _k in range(nsrc):
